@@ -1,1 +1,197 @@
-/-! Property theorems for C18 (stub: none yet). -/
+/-
+Property C18 - "Name and path validators accept exactly the DBus grammar."
+
+  The validators for object paths, interface names, error names, bus names and member names
+  accept exactly the strings the DBus specification's grammar allows [...] and reject every
+  other string with a marshalling error.  No message can be constructed carrying a path,
+  interface, member, destination or error name that its validator rejects.
+
+Code model  : Valid/Names.lean (the five validators, as written, after repairs C18-01/C18-02),
+              Valid/MsgNames.lean (which validators the message constructors run),
+              Valid/NamesPre.lean (the validators before the repairs, for the witnesses).
+Spec        : Valid/Grammar.lean (the grammar, by splitting into elements; bytes, not characters).
+Tables      : Gen/Validators.lean (character classes translated from the compiled regexes).
+
+Every theorem quantifies over ALL strings (`List Char`, no bound on the length) and over every
+behaviour `na` of Python's `str.isdigit` on non-ASCII characters (it is never relied upon).
+-/
+import TxdbusModel.Proofs.Valid.Validators
+import TxdbusModel.Proofs.Valid.Msg
+import TxdbusModel.Valid.NamesPre
+
+namespace Txdbus.Valid
+
+/-! ## The validators accept exactly the grammar -/
+
+/-- `validateObjectPath` returns iff the string is an object path of the DBus grammar. -/
+theorem validateObjectPath_iff_grammar (s : Str) :
+    validateObjectPath s = .accept ↔ GrammarObjectPath s :=
+  validateObjectPath_accept_iff s
+
+/-- `validateInterfaceName` returns iff the string is an interface name of the DBus grammar. -/
+theorem validateInterfaceName_iff_grammar (na : Char → Bool) (s : Str) :
+    validateInterfaceName na s = .accept ↔ GrammarInterfaceName s :=
+  validateInterfaceName_accept_iff na s
+
+/-- `validateErrorName` returns iff the string is an error name of the DBus grammar. -/
+theorem validateErrorName_iff_grammar (na : Char → Bool) (s : Str) :
+    validateErrorName na s = .accept ↔ GrammarErrorName s := by
+  rw [validateErrorName_eq]
+  exact validateInterfaceName_accept_iff na s
+
+/-- `validateBusName` returns iff the string is a bus name (unique or well-known) of the DBus grammar. -/
+theorem validateBusName_iff_grammar (na : Char → Bool) (s : Str) :
+    validateBusName na s = .accept ↔ GrammarBusName s :=
+  validateBusName_accept_iff na s
+
+/-- `validateMemberName` returns iff the string is a member name of the DBus grammar. -/
+theorem validateMemberName_iff_grammar (na : Char → Bool) (s : Str) :
+    validateMemberName na s = .accept ↔ GrammarMemberName s :=
+  validateMemberName_accept_iff na s
+
+/-- Every rejection is a `MarshallingError`: no IndexError (`n[0]`, `n[-1]` on the empty
+string) and no bare `Exception` leaves a validator. -/
+theorem validators_reject_with_marshallingError (na : Char → Bool) (s : Str) :
+    (validateObjectPath s ≠ .accept → validateObjectPath s = .raised .marshallingError) ∧
+    (validateInterfaceName na s ≠ .accept → validateInterfaceName na s = .raised .marshallingError) ∧
+    (validateErrorName na s ≠ .accept → validateErrorName na s = .raised .marshallingError) ∧
+    (validateBusName na s ≠ .accept → validateBusName na s = .raised .marshallingError) ∧
+    (validateMemberName na s ≠ .accept → validateMemberName na s = .raised .marshallingError) := by
+  refine ⟨?_, ?_, ?_, ?_, ?_⟩
+  · intro h; exact (validateObjectPath_cases s).resolve_left h
+  · intro h; exact (validateInterfaceName_cases na s).resolve_left h
+  · rw [validateErrorName_eq]; intro h; exact (validateInterfaceName_cases na s).resolve_left h
+  · intro h; exact (validateBusName_cases na s).resolve_left h
+  · intro h; exact (validateMemberName_cases na s).resolve_left h
+
+/-- Both halves in one statement: each validator IS the decision procedure of its grammar,
+with `MarshallingError` as the only rejection. -/
+theorem validators_decide_grammar (na : Char → Bool) (s : Str) :
+    validateObjectPath s = (if Grammar.objectPath s then .accept else .raised .marshallingError) ∧
+    validateInterfaceName na s = (if Grammar.interfaceName s then .accept else .raised .marshallingError) ∧
+    validateErrorName na s = (if Grammar.errorName s then .accept else .raised .marshallingError) ∧
+    validateBusName na s = (if Grammar.busName s then .accept else .raised .marshallingError) ∧
+    validateMemberName na s = (if Grammar.memberName s then .accept else .raised .marshallingError) := by
+  have key : ∀ (o : Outcome) (g : Bool), (o = .accept ↔ g = true) →
+      (o ≠ .accept → o = .raised .marshallingError) →
+      o = (if g then .accept else .raised .marshallingError) := by
+    intro o g hiff hrej
+    cases g with
+    | true => simpa using hiff.mpr rfl
+    | false =>
+      have : o ≠ .accept := fun h => Bool.noConfusion (hiff.mp h)
+      simpa using hrej this
+  have hr := validators_reject_with_marshallingError na s
+  exact ⟨key _ _ (validateObjectPath_iff_grammar s) hr.1,
+    key _ _ (validateInterfaceName_iff_grammar na s) hr.2.1,
+    key _ _ (validateErrorName_iff_grammar na s) hr.2.2.1,
+    key _ _ (validateBusName_iff_grammar na s) hr.2.2.2.1,
+    key _ _ (validateMemberName_iff_grammar na s) hr.2.2.2.2⟩
+
+/-! ## No message carries a name its validator rejects -/
+
+/-- If a constructor of `txdbus.message` returns, every path, member, interface, destination
+and error name it was given belongs to its grammar (`None` for an optional field carries no
+name).  Error names are checked through `validateInterfaceName`, which is the same grammar. -/
+theorem constructed_message_names_grammatical (na : Char → Bool) :
+    (∀ path member iface dest, constructMethodCall na path member iface dest = .accept →
+        GrammarObjectPath path ∧ GrammarMemberName member ∧
+        (∀ i, iface = some i → GrammarInterfaceName i) ∧ (∀ d, dest = some d → GrammarBusName d)) ∧
+    (∀ dest, constructMethodReturn na dest = .accept → ∀ d, dest = some d → GrammarBusName d) ∧
+    (∀ errorName dest, constructError na errorName dest = .accept →
+        GrammarErrorName errorName ∧ (∀ d, dest = some d → GrammarBusName d)) ∧
+    (∀ path member iface dest, constructSignal na path member iface dest = .accept →
+        GrammarObjectPath path ∧ GrammarMemberName member ∧ GrammarInterfaceName iface ∧
+        (∀ d, dest = some d → GrammarBusName d)) := by
+  refine ⟨?_, ?_, ?_, ?_⟩
+  · intro path member iface dest h
+    unfold constructMethodCall at h
+    simp only [andThen_accept, ifNotNone_accept] at h
+    obtain ⟨hm, hi, hd, _, hp⟩ := h
+    exact ⟨(validateObjectPath_iff_grammar _).mp hp, (validateMemberName_iff_grammar na _).mp hm,
+      fun i e => (validateInterfaceName_iff_grammar na _).mp (hi i e),
+      fun d e => (validateBusName_iff_grammar na _).mp (hd d e)⟩
+  · intro dest h d e
+    unfold constructMethodReturn at h
+    exact (validateBusName_iff_grammar na _).mp ((ifNotNone_accept _ _).mp h d e)
+  · intro errorName dest h
+    unfold constructError at h
+    simp only [andThen_accept, ifNotNone_accept] at h
+    obtain ⟨hd, he⟩ := h
+    exact ⟨(validateInterfaceName_iff_grammar na _).mp he,
+      fun d e => (validateBusName_iff_grammar na _).mp (hd d e)⟩
+  · intro path member iface dest h
+    unfold constructSignal at h
+    simp only [andThen_accept, ifNotNone_accept] at h
+    obtain ⟨hm, hi, hd, hp⟩ := h
+    exact ⟨(validateObjectPath_iff_grammar _).mp hp, (validateMemberName_iff_grammar na _).mp hm,
+      (validateInterfaceName_iff_grammar na _).mp hi,
+      fun d e => (validateBusName_iff_grammar na _).mp (hd d e)⟩
+
+/-- A constructor that does not return raises `MarshallingError`. -/
+theorem message_construction_rejects_with_marshallingError (na : Char → Bool) :
+    (∀ path member iface dest, (constructMethodCall na path member iface dest).Clean) ∧
+    (∀ dest, (constructMethodReturn na dest).Clean) ∧
+    (∀ errorName dest, (constructError na errorName dest).Clean) ∧
+    (∀ path member iface dest, (constructSignal na path member iface dest).Clean) := by
+  have hi : ∀ s, (validateInterfaceName na s).Clean := validateInterfaceName_cases na
+  have hb : ∀ s, (validateBusName na s).Clean := validateBusName_cases na
+  have hm : ∀ s, (validateMemberName na s).Clean := validateMemberName_cases na
+  have hp : ∀ s, (validateObjectPath s).Clean := validateObjectPath_cases
+  refine ⟨?_, ?_, ?_, ?_⟩
+  · intro path member iface dest
+    exact andThen_clean (hm _) (andThen_clean (ifNotNone_clean hi _) (andThen_clean (ifNotNone_clean hb _)
+      (andThen_clean (reservedCheck_clean _) (hp _))))
+  · intro dest; exact ifNotNone_clean hb _
+  · intro e dest; exact andThen_clean (ifNotNone_clean hb _) (hi _)
+  · intro path member iface dest
+    exact andThen_clean (hm _) (andThen_clean (hi _) (andThen_clean (ifNotNone_clean hb _) (hp _)))
+
+/-! ## The hypotheses are satisfiable: each grammar and each validator accepts something, rejects something -/
+
+example : GrammarObjectPath "/".toList ∧ GrammarObjectPath "/org/freedesktop/DBus".toList ∧
+    ¬ GrammarObjectPath "/a/".toList ∧ ¬ GrammarObjectPath "//".toList ∧ ¬ GrammarObjectPath "".toList := by decide
+example : GrammarInterfaceName "org.freedesktop.DBus".toList ∧ ¬ GrammarInterfaceName "a.".toList ∧
+    ¬ GrammarInterfaceName "a.1b".toList ∧ ¬ GrammarInterfaceName "a".toList := by decide
+example : GrammarBusName ":1.42".toList ∧ GrammarBusName "org.a-b._c".toList ∧ ¬ GrammarBusName ":1.".toList ∧
+    ¬ GrammarBusName ":.a".toList ∧ ¬ GrammarBusName "a:b.c".toList ∧ ¬ GrammarBusName "a.1".toList := by decide
+example : GrammarMemberName "GetAll".toList ∧ ¬ GrammarMemberName "a.b".toList ∧ ¬ GrammarMemberName "".toList := by decide
+example (na : Char → Bool) : validateBusName na ":1.42".toList = .accept :=
+  (validateBusName_iff_grammar na _).mpr (by decide)
+example (na : Char → Bool) : validateInterfaceName na "".toList = .raised .marshallingError :=
+  ((validators_reject_with_marshallingError na _).2.1)
+    (fun h => absurd ((validateInterfaceName_iff_grammar na _).mp h) (by decide))
+example (na : Char → Bool) :
+    constructMethodCall na "/a".toList "m".toList (some "a.b".toList) (some ":1.2".toList) = .accept := rfl
+
+/-! ## Witnesses: the validators BEFORE repairs C18-01 / C18-02 violate the property (F27) -/
+
+/-- Pre-repair `validateInterfaceName` / `validateErrorName` accept `"a."` and `"a.b."`
+(empty last element), which the grammar rejects. -/
+theorem prefix_interfaceName_accepts_trailing_dot (na : Char → Bool) :
+    Pre.validateInterfaceName na "a.".toList = .accept ∧ ¬ GrammarInterfaceName "a.".toList ∧
+    Pre.validateErrorName na "a.b.".toList = .accept ∧ ¬ GrammarErrorName "a.b.".toList :=
+  ⟨rfl, by decide, rfl, by decide⟩
+
+/-- Pre-repair `validateBusName` accepts `"a."` (empty last element), `"a:b.c"` (colon inside
+a name), `":.a"` and `":1."` (empty element of a unique name); the grammar rejects all four. -/
+theorem prefix_busName_accepts_nongrammatical (na : Char → Bool) :
+    Pre.validateBusName na "a.".toList = .accept ∧ ¬ GrammarBusName "a.".toList ∧
+    Pre.validateBusName na "a:b.c".toList = .accept ∧ ¬ GrammarBusName "a:b.c".toList ∧
+    Pre.validateBusName na ":.a".toList = .accept ∧ ¬ GrammarBusName ":.a".toList ∧
+    Pre.validateBusName na ":1.".toList = .accept ∧ ¬ GrammarBusName ":1.".toList :=
+  ⟨rfl, by decide, rfl, by decide, rfl, by decide, rfl, by decide⟩
+
+end Txdbus.Valid
+
+#print axioms Txdbus.Valid.validateObjectPath_iff_grammar
+#print axioms Txdbus.Valid.validateInterfaceName_iff_grammar
+#print axioms Txdbus.Valid.validateErrorName_iff_grammar
+#print axioms Txdbus.Valid.validateBusName_iff_grammar
+#print axioms Txdbus.Valid.validateMemberName_iff_grammar
+#print axioms Txdbus.Valid.validators_reject_with_marshallingError
+#print axioms Txdbus.Valid.validators_decide_grammar
+#print axioms Txdbus.Valid.constructed_message_names_grammatical
+#print axioms Txdbus.Valid.message_construction_rejects_with_marshallingError
+#print axioms Txdbus.Valid.prefix_interfaceName_accepts_trailing_dot
+#print axioms Txdbus.Valid.prefix_busName_accepts_nongrammatical
